@@ -55,6 +55,7 @@ def geom(
     int_corners=True,
     units=True,
     tol=True,
+    aniso=False,
 ):
     """Region + cell counts.  Keys: p1 p2 n dims units tol (JSON-able)."""
     nd = draw(st.integers(*ndim)) if isinstance(ndim, tuple) else ndim
@@ -97,11 +98,20 @@ def geom(
             hi = lo + n[d] * c
             p1.append(float(lo))
             p2.append(float(hi))
+    stretched = False
+    if aniso and not snapped and nd >= 2 and draw(st.integers(0, 3)) == 0:
+        # thin films and long wires: one axis 1e2 ... 1e5 times longer than the others
+        d = draw(st.integers(0, nd - 1))
+        f = 10.0 ** draw(st.integers(2, 5))
+        p1[d], p2[d] = p1[d] * f, p2[d] * f
+        stretched = True
     # either corner order per axis
     for d in range(nd):
         if draw(st.integers(0, 3)) == 0:
             p1[d], p2[d] = p2[d], p1[d]
     g = {"p1": p1, "p2": p2, "n": n, "exp": e}
+    if stretched:
+        g["stretched"] = True  # callers drop subregions: the alignment tolerance is an absolute 1e-12
     g["dims"] = draw(dims_strategy(nd)) if names else None
     if units and draw(st.booleans()):
         g["units"] = [draw(st.sampled_from(UNIT_POOL)) for _ in range(nd)]
@@ -306,7 +316,11 @@ def probe_spec(draw, n, kinds=("c", "v", "f")):
         elif k == "v":
             out.append(["v", draw(st.integers(0, nd))])
         elif k == "f":
-            out.append(["f", draw(st.integers(0, nd - 1)), draw(st.integers(1, 19)) / 20])
+            # mostly mid-cell fractions, sometimes a point 0.05 % ... 0.1 % of a cell away from a face (far outside
+            # every comparison tolerance, which is 1e-12 relative by default and at most 1e-9)
+            out.append(["f", draw(st.integers(0, nd - 1)),
+                        draw(st.one_of(st.integers(1, 19).map(lambda q: q / 20), st.integers(1, 19).map(lambda q: q / 20),
+                                       st.sampled_from([0.0005, 0.9995, 0.001, 0.999])))])
         elif k == "o":
             out.append(["o", draw(st.integers(0, 1)), draw(st.sampled_from([0.05, 0.3, 1.0, 2.5, 40.0]))])
     return out
